@@ -81,15 +81,17 @@ Process(st, q, ord) ==
                                     !.found = hit]
                IN Process(s2, q, Tail(ord))
 Perms(S) == {f \in [1..Cardinality(S) -> S] : \A i \in 1..Cardinality(S) : \A j \in 1..Cardinality(S) : f[i] = f[j] => i = j}
-PopOf(q) ==
+Users(q) == {r \in DOMAIN miss : q \in DOMAIN miss[r] /\ miss[r][q] > 0}
+\* one Pop with the rules looked at in the order ord: all of them, or a prefix that ends with the rule that left the loop
+PopOrd(q, ord) ==
   /\ ~done /\ ~found /\ q \in work
-  /\ LET users == {r \in DOMAIN miss : q \in DOMAIN miss[r] /\ miss[r][q] > 0} IN
-     \E ord \in Perms(users) :
-       LET st == Process([reached |-> reached, work |-> work \ {q}, miss |-> miss, recorded |-> recorded,
-                          remaining |-> remaining, found |-> FALSE], q, ord)
-       IN /\ reached' = st.reached /\ work' = st.work /\ miss' = st.miss /\ recorded' = st.recorded
-          /\ remaining' = st.remaining /\ found' = st.found
+  /\ LET st == Process([reached |-> reached, work |-> work \ {q}, miss |-> miss, recorded |-> recorded,
+                        remaining |-> remaining, found |-> FALSE], q, ord)
+     IN /\ st.found \/ Len(ord) = Cardinality(Users(q))
+        /\ reached' = st.reached /\ work' = st.work /\ miss' = st.miss /\ recorded' = st.recorded
+        /\ remaining' = st.remaining /\ found' = st.found
   /\ UNCHANGED <<A, out, done>>
+PopOf(q) == \E ord \in Perms(Users(q)) : PopOrd(q, ord)
 Pop == \E q \in work : PopOf(q)
 Finish ==
   /\ ~done /\ (work = {} \/ found)
